@@ -234,6 +234,27 @@ def _log_grid(quick):
     import cm_log as G
     if quick:
         return [G.LogConfig("log8", 2**32 - 1, 15), G.LogConfig("log8", 1000, 3), G.LogConfig("log8", 2**40, 100)]
+    return _log_grid_full()
+
+
+def _merge_grid(quick):
+    """Configurations for the merge-cell sweep: small max_count with small, medium and large reserved ranges
+    (the step between the top counters may be smaller or larger than num_reserved), defaults, huge max_count."""
+    import cm_log as G
+    cfgs = [("log8", 2**32 - 1, 15), ("log8", 1000, 3), ("log8", 1000, 15), ("log8", 300, 40), ("log8", 2000, 100),
+            ("log8", 2**40, 100), ("log8", 70000, 250), ("log8", 2**63, 0)]
+    return [G.LogConfig(*c) for c in cfgs]
+
+
+def _merge_pairs(cf, rng, quick):
+    if not quick:
+        return [(a, b) for a in range(256) for b in range(256)]
+    bs = sorted(set(list(range(0, min(cf.nr + 4, 256))) + list(range(248, 256)) + rng.sample(range(256), 24)))[:64]
+    return [(a, b) for a in range(256) for b in bs] + [(b, a) for a in range(248, 256) for b in range(256)]
+
+
+def _log_grid_full():
+    import cm_log as G
     return [G.LogConfig(k, m, n) for k, m, n in
             [("log8", 2**32 - 1, 15), ("log8", 1000, 3), ("log8", 300, 0), ("log8", 2**40, 100),
              ("log8", 5000, 30), ("log8", 2**63, 0), ("log8", 10**6, 200), ("log8", 70000, 250)]]
@@ -303,8 +324,8 @@ def check_C09(tier):
     G.model_check(rep, [], G.PROP_C09, W=2, D=1, UMax=4, NR=1, Slots=2, MaxTruth=4, B=2, tag="c09log")
     # all 256 x 256 counter pairs (tables set directly) for every log8 configuration of the grid
     batches = []
-    for cf in _log_grid(quick):
-        pairs = [(a, b) for a in range(256) for b in range(256)]
+    for cf in _merge_grid(quick):
+        pairs = _merge_pairs(cf, rng, quick)
         calls = G.merge_calls(cf, pairs)
         for i in range(0, len(calls), 2048):
             batches.append(G.calls_batch(cf, calls[i:i + 2048]))
@@ -380,6 +401,12 @@ def check_C18(tier):
         calls, meta = G.ctor_calls(kind, [(m, n) for m in mcs2 for n in nrs])
         batches.append(G.ctor_batch(kind, calls))
         rep.sample({"ctor_grid": kind, "first": [list(map(str, x)) for x in meta[:3]]})
+    # merges that land at or beyond the ceiling: every counter paired with the top 16 counters, both orders
+    for cf in _merge_grid(quick):
+        pairs = [(a, b) for a in range(240, 256) for b in range(256)] + [(b, a) for a in range(240, 256) for b in range(256)]
+        calls = G.merge_calls(cf, pairs)
+        for i in range(0, len(calls), 2048):
+            batches.append(G.calls_batch(cf, calls[i:i + 2048]))
     G.validate_calls(rep, batches, "c18ctor")
     _sample_linear(rep, lt)
     rep.cov["exhaustive"] = True
@@ -459,8 +486,8 @@ def check_C20(tier):
     P.model_check(rep)
     files = []
     for kind in ("linear", "log16", "log8", "hll", "hh"):
-        for _ in range(1 if quick else 3):
-            files.append(P.prefix_events(rng, kind, stride=1))
+        for j in range(2 if quick else 4):
+            files.append(P.prefix_events(rng, kind, stride=1 if j % 2 == 0 else (7 if quick else 1), overwrite=(j % 2 == 1)))
     P.validate(rep, files, [], "c20")
     per = {}
     for f in files:
@@ -493,6 +520,7 @@ def check_C10(tier):
     rep = Report("C10", tier)
     rng = _rng("C10")
     quick = tier == "quick"
+    impl.STRICT_PERSIST = True          # a save/load that raises inside a history is a C10 violation
     # loader / class matrix and parameter / state / observer equality, merge both ways
     trips = P.roundtrips(rng, 25 if quick else 200)
     P.validate(rep, [], trips, "c10")
